@@ -188,7 +188,16 @@ def run(spec, out):
             return value_digest(v, inexact)
 
         out.evaluation()
+        # einx draws its internal identifiers without touching the process-wide random generators (a traced first call and a cached repeat must
+        # leave user code that draws from them in the same state)
+        import random as _pyrandom
+        rs0, ns0 = _pyrandom.getstate(), np.random.get_state()
         d1 = once()
+        rs1, ns1 = _pyrandom.getstate(), np.random.get_state()
+        if rs0 != rs1 or ns0[0] != ns1[0] or not np.array_equal(ns0[1], ns1[1]) or ns0[2:] != ns1[2:]:
+            out.violation({"kind": "global-random-state-advanced"}, {**case.to_json(), "python_random_changed": rs0 != rs1}, f"{case.op}({case.desc()!r}): the first (traced) call changed the state of the global random generator")
+        else:
+            out.count("global_random_state_untouched")
         d2 = once()
         cache.cache_clear()
         d3 = once()
@@ -242,6 +251,16 @@ def run(spec, out):
     }
     first = {}
     frng = random.Random(spec["corpus_seed"] + 99)
+    # reference outcome of every (factory kind, description): one call each on an emptied compile cache, i.e. not preceded by any other factory
+    add_cache = hooks.op_cache(einx.add)
+    for kind in sorted(kinds):
+        for desc in ("a b, b", "a b, a b", "a b, a"):
+            add_cache.cache_clear()
+            try:
+                first[(kind, desc)] = value_digest(einx.add(desc, x, kinds[kind]()), False)
+            except Exception as e:  # noqa
+                first[(kind, desc)] = "E:" + type(e).__name__
+    add_cache.cache_clear()
     for rep in range(spec.get("nfactory", 0)):
         kind = frng.choice(sorted(kinds))
         f = kinds[kind]()
@@ -365,6 +384,8 @@ def finalize(agg, tier, seed):
                 elif a[1] != b[1] and not a[1].startswith("E:"):
                     agg.counters["graph_text_differs_across_hashseeds"] += 1
     agg.counters["cross_process_comparisons"] = compared
+    if agg.counters.get("global_random_state_untouched", 0) < 100:
+        agg.inconclusive.append("fewer than 100 calls observed for their effect on the global random generators")
     if agg.counters.get("reverse_order_repetitions_agree", 0) < 100:
         agg.inconclusive.append("fewer than 100 agreeing repetitions in reverse order")
     if agg.counters.get("short_lived_factory_repetitions_agree", 0) < 100:
